@@ -365,7 +365,9 @@ func (s *Session) Scratch() string {
 
 // Close writes the shard result and removes the scratch root.
 func (s *Session) Close() {
-	_ = os.RemoveAll(s.Root)
+	if os.Getenv("VERIF_KEEP") == "" {
+		_ = os.RemoveAll(s.Root)
+	}
 	if s.OutPath == "" {
 		return
 	}
